@@ -140,6 +140,23 @@ def _abandon(g):
         pass
 
 
+def _drop_and_read(holder, path, workdir):
+    """The other way a writer stops: an exception unwinds and the writer object is simply dropped
+    (garbage collected) without close().  -> reader verdict on what is then on disk."""
+    import gc
+    g = holder.pop()
+    try:
+        real = getattr(g._file, '_real', g._file)
+        real.flush()
+    except Exception:
+        pass
+    del g
+    gc.collect()
+    with open(path, 'rb') as fh:
+        data = fh.read()
+    return _read_back_bytes(data, workdir)['ok']
+
+
 def _subst_default(data, default):
     """bytes -> list of chars with the library's default title replaced by the pseudo char."""
     text = data.decode('latin1')
@@ -185,10 +202,15 @@ def run_history(hist, workdir, tid, trunc):
     def apply_prefix(g, upto):
         """apply setters and writes (events appended only when upto is None)"""
         log = upto is None
+        nw = 0
         for op in hist:
             name = op['op']
             if name == 'close':
                 break
+            if name == 'write':
+                nw += 1
+                if isinstance(upto, int) and nw > upto:
+                    break
             out = 'ok'
             try:
                 if name == 'title':
@@ -217,6 +239,7 @@ def run_history(hist, workdir, tid, trunc):
                     data = _flushed(g, path)
                     e['len'] = len(_subst_default(data, default)[0])
                     e['read_ok'] = _read_back_bytes(data, workdir)['ok']
+                    e['nwrites'] = sum(1 for q in ev if q['op'] == 'write') + 1
                 elif name == 'box':
                     e['v'] = op['v']
                 else:
@@ -227,6 +250,14 @@ def run_history(hist, workdir, tid, trunc):
     declared = any(op['op'] == 'natoms' for op in hist)
     g = GroFile(path, 'w')
     apply_prefix(g, None)
+    # the same crash points reached by dropping the writer object instead of killing the process
+    for e in ev:
+        if e['op'] == 'write':
+            g2 = GroFile(path, 'w')
+            apply_prefix(g2, e['nwrites'])
+            holder = [g2]
+            del g2
+            e['read_ok_dropped'] = _drop_and_read(holder, path, workdir)
     if not has_close:
         _abandon(g)
         return {'tid': tid, 'kind': 'exact', 'ev': ev}
@@ -349,7 +380,9 @@ def random_file_trace(seed, tid, workdir, max_recs, trunc=True):
             return rng.choice([float(Fraction(top * 10 ** dec - 1, 10 ** dec)) - 10.0 ** -(dec + 2),
                                -float(Fraction((top // 10) * 10 ** dec - 1, 10 ** dec)) + 10.0 ** -(dec + 2),
                                0.0, 10.0 ** -dec / 3])
-        if kind < 0.35:   # dyadic ties
+        if kind < 0.32:   # magnitudes around the last written decimal
+            return rng.choice([-1, 1]) * rng.uniform(0.0, 1.6) * 10.0 ** -dec
+        if kind < 0.42:   # dyadic ties
             return rng.randint(-(top // 10) * 8 + 1, top * 8 - 1) / 8.0 * rng.choice([1, 0.5, 0.25, 0.125]) % (top - 1)
         return rng.uniform(-(top // 10) + 0.6, top - 0.6)
 
@@ -597,7 +630,7 @@ def check(run, props):
                 traces[t['tid']] = t
     # writer failures on random valid input are violations by themselves
     verdicts = validate_batches('Trace_GroFile', TRACE_CFG, parts, scratch, timeout=3000, run=run)
-    c14_clauses = {'crash_point_rejected', 'accepted_after_box_line', 'failed_close_rejected',
+    c14_clauses = {'crash_point_rejected', 'dropped_writer_rejected', 'accepted_after_box_line', 'failed_close_rejected',
                    'truncation_before_box_rejected', 'accepted_truncation_exact'}
     for tid, tr in traces.items():
         v = verdicts.get(tid)
